@@ -29,23 +29,39 @@ impl Prop for C18Prop {
             large_pct: 25,
             n_small: (1, 10),
             n_large: (11, 40),
-            regimes: vec![WeightRegime::AllNan, WeightRegime::Dyadic, WeightRegime::Nasty, WeightRegime::ZeroDyadic, WeightRegime::SmallInt],
+            regimes: vec![WeightRegime::AllNan, WeightRegime::Dyadic, WeightRegime::Nasty, WeightRegime::ZeroDyadic, WeightRegime::SmallInt, WeightRegime::Mixed],
             kinds: AlgoGen::single_edge_kinds(),
             shapes: None,
             lifecycle_pct: 25,
             keyings: 1,
+            boundary_per_mille: 0,
         }
         .gen("C18", seed, idx);
+        let big = idx % 200 == 199;
+        if big {
+            let mut wr = Rng::new(seed, "workload.big");
+            let (d, _m, l) = crate::gen::kind_from(idx as usize / 200 % 8);
+            let n = *wr.pick(&[521usize, 523, 600]);
+            let regime = *wr.pick(&[WeightRegime::AllNan, WeightRegime::SmallInt]);
+            let (specs, ops) = crate::gen::gen_graph(&mut wr, &crate::gen::GraphOpts { directed: d, multi: false, self_loops: l, n_min: n, n_max: n, regime, shape: Some(crate::gen::Shape::SparseRandom), sprinkle: true });
+            case.specs = specs;
+            case.ops = ops;
+        }
         let mut rng = Rng::new(seed, "c18.args");
         case.params.put("max_iter", J::U(*rng.pick(&[1u64, 2, 5, 20, 100, 100, 1000])));
         let tol = 10f64.powf(-(2.0 + rng.unit() * 10.0)); // [1e-12, 1e-2]
         case.params.put("tolerance", J::F(tol));
         case.params.put("weighted", J::Bool(rng.chance(1, 2)));
+        if big {
+            // let the iteration actually converge on the large graphs
+            case.params.put("max_iter", J::U(1000));
+            case.params.put("tolerance", J::F(*rng.pick(&[1e-3, 1e-5, 1e-7])));
+        }
         let k = match tier {
             Tier::Quick => 4,
             Tier::Thorough => 8,
         };
-        case.envs = gen::keyings(seed, k).into_iter().map(|k| Env { keying: k, pool: 1, sched: 0 }).collect();
+        case.envs = gen::envs(seed, k);
         case
     }
     fn run_env(&self, case: &Case, env: &Env, cx: &mut Ctx) {
